@@ -8,7 +8,14 @@ from sa.model import Program, read_repo_sources, read_yaml_sources, AnalysisErro
 from sa import report
 import importlib
 
-PROPS = sys.argv[1:] or [p[:-3].upper() for p in sorted(os.listdir('/verif/sa/rules')) if p.startswith('c') and p.endswith('.py')]
+IDS = None
+ARGS = []
+for a in sys.argv[1:]:
+    if a.startswith('--ids='):
+        IDS = {int(x) for x in a[6:].split(',') if x}
+    else:
+        ARGS.append(a)
+PROPS = ARGS or [p[:-3].upper() for p in sorted(os.listdir('/verif/sa/rules')) if p.startswith('c') and p[1:3].isdigit() and p.endswith('.py')]
 M = '/root/scratch/mutants'
 BASE = read_repo_sources()
 YS = read_yaml_sources()
@@ -42,6 +49,13 @@ def run_one(m):
 if __name__ == '__main__':
     survey = json.load(open('/root/scratch/survey.json'))
     surv = [m for m in survey if m['survived']]
+    if IDS is not None:
+        surv = [m for m in survey if m['id'] in IDS]
+        with ProcessPoolExecutor(16) as ex:
+            for i, r in ex.map(run_one, surv):
+                m = [x for x in surv if x['id'] == i][0]
+                print('%4d %-16s %-10s L%-4s %s => %s' % (i, m['file'], m['kind'], m['line'], m['src'][:60].replace('\n', ' '), str(r)[:300] if r else 'SILENT'))
+        sys.exit(0)
     t = time.time()
     with ProcessPoolExecutor(16) as ex:
         res = dict(ex.map(run_one, surv, chunksize=4))
